@@ -13,7 +13,9 @@
 (*     Canon      parser.canonical_pyi(t1)                       t3, and whether it is idempotent*)
 (*     Resolve    the text loaded as a module through the loader (names, imports, type params)   *)
 (*     Compare    the declarations read back against the declarations that were printed, both    *)
-(*                in a representation-independent normal form (stubs whose original is known)    *)
+(*                in a representation-independent normal form (stubs whose original is known);   *)
+(*                where StubGen states that the printed text DENOTES other declarations than the  *)
+(*                tree it was printed from (special method names: rk / ab), against those          *)
 (*   byte line   (C12)  Canonical -> Encode -> Decode -> Reencode -> Reserialize                 *)
 (*     Canonical  structure of the canonically ordered original                 c0               *)
 (*     Encode     pickle_utils.Serialize(ast)                                   b1               *)
